@@ -1,6 +1,6 @@
 ---- MODULE SqlFuzzTrace ----
 (* Trace validation for C29: each recorded execution of a statement on the real engine
-   (one line = statement hash, schema, outcome) must be a Submit followed by a Return of
+   (one line = statement hash + the outcome on each registered schema) must be a Submit followed by a Return of
    SqlFuzz's engine machine.  "panic", "abort" and "hang" are not outcomes of that machine. *)
 EXTENDS Naturals, Integers, Sequences, FiniteSets, TLC, Json, IOUtils
 
@@ -19,7 +19,7 @@ Outcome(k) == CASE k = "ok" -> "RetOk" [] k = "err" -> "RetErr" [] k = "panic" -
 \* one line: Submit, Return with the recorded outcome, and back to Idle for the next statement
 Step == /\ l <= Len(Rec)
         /\ eng = "Idle"
-        /\ Outcome(Rec[l].k) \in ReturnStates                           \* Return's only successors
+        /\ \A j \in DOMAIN Rec[l].ks : Outcome(Rec[l].ks[j]) \in ReturnStates     \* Return's only successors
         /\ l' = l + 1
         /\ UNCHANGED <<toks, depth, seed, eng>>
 TNext == Step
